@@ -345,7 +345,22 @@ def st_case():
 
     def tolist(x):
         return [tolist(i) for i in x] if isinstance(x, (tuple, list)) else x
-    return st.builds(lambda objs, confs, ops: {"objs": objs, "confs": confs,
+    def with_siblings(objs):
+        # tables built from one format template (fmt_obj=): same fields / format, other records
+        out = list(objs)
+        for o in objs:
+            if o["k"] == "table" and "refmt" not in o and o["case"]["kind"] in ("tuple", "namedtuple") and o["case"]["records"] \
+                    and len(out) < 6:
+                c1 = dict(o["case"], via_fmt_obj=True)
+                o["case"] = c1
+                recs = [[(v * 3 if isinstance(v, str) else (v * 1000 + 7 if isinstance(v, int) and not isinstance(v, bool) else v))
+                         for v in r] for r in c1["records"][::-1]]
+                if c1.get("enums"):
+                    recs = [list(r) for r in c1["records"][::-1]]
+                    recs = recs + recs[:1]
+                out.append({"k": "table", "case": dict(c1, records=recs)})
+        return out
+    return st.builds(lambda objs, confs, ops: {"objs": with_siblings(objs), "confs": confs,
                                                "ops": tolist([["mkconf", 0], ["render", 0, {"conf": 0, "no_color": False, "palette": None,
                                                                                       "consume": "whole", "fresh": False}]] + ops)},
                      st.lists(st_obj(), min_size=1, max_size=4), st.lists(st_conf(), min_size=2, max_size=4),
